@@ -15,6 +15,7 @@ package pipeline
 //                filters; old and new generation handle requests afterwards.
 
 import (
+	stdcontext "context"
 	"crypto/sha1"
 	"encoding/hex"
 	"encoding/json"
@@ -23,7 +24,6 @@ import (
 	"net/http"
 	"reflect"
 	"sort"
-	stdcontext "context"
 	"strings"
 	"sync"
 	"testing"
@@ -190,11 +190,15 @@ type c11RlIn struct {
 }
 
 type c11RlStep struct {
-	Panic    bool   `json:"panic"`
-	Refs     []int  `json:"refs"`     // init/inherit: limiter identity per URL rule of the new generation (-1 nil)
-	FromRefs []int  `json:"fromRefs"` // inherit: limiter identities of the generation inherited from, afterwards
-	Code     int    `json:"code"`     // handle: 0 pass | 1 rateLimited+429 | 2 panic | 3 other
-	Matches  []bool `json:"matches"`  // handle: oracle row, real URLRule.Match per rule of that generation
+	Panic    bool  `json:"panic"`
+	Refs     []int `json:"refs"`     // init/inherit: limiter identity per URL rule of the new generation (-1 nil)
+	FromRefs []int `json:"fromRefs"` // inherit: limiter identities of the generation inherited from, afterwards
+	Code     int   `json:"code"`     // handle: 0 pass | 1 rateLimited+429 | 2 panic | 3 other
+	// init/inherit: (limitForPeriod, timeout ns, period ns) the limiter OBJECT of each URL rule of the
+	// new generation really enforces, and the same for a never-inherited twin built from the same spec
+	Pols     [][3]int64 `json:"pols"`
+	TwinPols [][3]int64 `json:"twinPols"`
+	Matches  []bool     `json:"matches"` // handle: oracle row, real URLRule.Match per rule of that generation
 }
 
 type c11RlObs struct {
@@ -299,6 +303,22 @@ func c11WithCancel() (stdcontext.Context, stdcontext.CancelFunc) {
 	return stdcontext.WithCancel(stdcontext.Background())
 }
 
+// the policy each URL rule's limiter object enforces (unexported fields read through reflect)
+func c11RlPols(f filters.Filter) [][3]int64 {
+	out := [][3]int64{}
+	for _, u := range f.Spec().(*ratelimiter.Spec).URLs {
+		rl := reflect.ValueOf(u).Elem().FieldByName("rl")
+		if rl.IsNil() {
+			out = append(out, [3]int64{-1, -1, -1})
+			continue
+		}
+		pol := rl.Elem().FieldByName("policy").Elem()
+		out = append(out, [3]int64{pol.FieldByName("LimitForPeriod").Int(), pol.FieldByName("TimeoutDuration").Int(),
+			pol.FieldByName("LimitRefreshPeriod").Int()})
+	}
+	return out
+}
+
 func c11CancelledReq(method, path string) (*http.Request, error) {
 	// an already-cancelled request context: RateLimiter.Handle never sleeps on an imposed wait
 	std, err := http.NewRequest(method, "http://example.com"+path, nil)
@@ -346,9 +366,14 @@ func c11RunRl(in c11RlIn) (obs c11RlObs) {
 				return
 			}
 			st := c11RlStep{}
+			if twin, err := c11Build(c11RlRaw(in.Specs[op.Spec], "rl")); err == nil {
+				twin.Init()
+				st.TwinPols = c11RlPols(twin)
+			}
 			if op.Op == "init" {
 				f.Init()
 				st.Refs = refsOf(f)
+				st.Pols = c11RlPols(f)
 				gens = append(gens, f)
 			} else {
 				if op.Gen < 0 || op.Gen >= len(gens) {
@@ -365,6 +390,7 @@ func c11RunRl(in c11RlIn) (obs c11RlObs) {
 				}()
 				if !st.Panic {
 					st.Refs = refsOf(f)
+					st.Pols = c11RlPols(f)
 					gens = append(gens, f)
 				}
 				st.FromRefs = refsOf(gens[op.Gen])
@@ -437,9 +463,9 @@ func c11GenRlSpec(r *vfRand, base *c11RlSpec, adv bool) c11RlSpec {
 		s := c11RlSpec{Default: base.Default}
 		s.Policies = append(s.Policies, base.Policies...)
 		s.URLs = append(s.URLs, base.URLs...)
-		k := r.Intn(8)
+		k := r.Intn(10)
 		if adv && r.Chance(1, 2) {
-			k = []int{0, 0, 6, 3}[r.Intn(4)]
+			k = []int{0, 0, 6, 3, 8, 9}[r.Intn(6)]
 		}
 		switch k {
 		case 0: // unchanged: every limiter is handed over
@@ -474,8 +500,29 @@ func c11GenRlSpec(r *vfRand, base *c11RlSpec, adv bool) c11RlSpec {
 		case 6: // duplicate a rule: two rules of the new spec match one previous rule
 			i := r.Intn(len(s.URLs))
 			s.URLs = append(s.URLs, s.URLs[i])
-		default: // change the default policy
+		case 7: // change the default policy
 			s.Default = s.Policies[r.Intn(len(s.Policies))].Name
+		default:
+			// policies sharing a NAME (legal): only a LATER duplicate changes - the name still resolves
+			// to the first one, nothing changes for any rule
+			dup := -1
+			for i := 1; i < len(s.Policies) && dup < 0; i++ {
+				for j := 0; j < i; j++ {
+					if s.Policies[j].Name == s.Policies[i].Name {
+						dup = i
+					}
+				}
+			}
+			if dup < 0 {
+				p := s.Policies[0]
+				p.L = p.L + 3
+				s.Policies = append(s.Policies, p)
+			} else {
+				p := s.Policies[dup]
+				p.L = p.L%5 + 1
+				p.P = r.PickStr("1ms", "10ms", "1s")
+				s.Policies[dup] = p
+			}
 		}
 		for i := range s.Policies {
 			c11FillPolicy(&s.Policies[i])
@@ -489,6 +536,15 @@ func c11GenRlSpec(r *vfRand, base *c11RlSpec, adv bool) c11RlSpec {
 			P: r.PickStr("", "1ms", "10ms", "1s", "1000us", "1h"), L: r.PickInt(1, 1, 2, 3, 50)}
 		c11FillPolicy(&p)
 		s.Policies = append(s.Policies, p)
+	}
+	if r.Chance(1, 4) {
+		// a second policy with the name of the first (and other limits)
+		p := s.Policies[0]
+		p.L = p.L + r.Range(1, 3)
+		p.P = r.PickStr("1ms", "10ms", "1s")
+		c11FillPolicy(&p)
+		s.Policies = append(s.Policies, p)
+		np = len(s.Policies)
 	}
 	s.Default = "p0"
 	nu := r.Range(1, 4)
